@@ -24,7 +24,7 @@ package deployment
 @*/
 
 /*@ func types/deployment.PodsFilter
-  props C19 C17
+  props C19 C17 C09
   theory deploymentfilters
   note filter.LabelSelector panics on an invalid selector (outside the property)
   requires [sources-valid] (forall ((j Int)) (=> (and (<= 0 j) (< j (slen {sources})))
